@@ -32,6 +32,7 @@ def bisect (inp : Json) : R Res := do
 def handle (k : String) (inp : Json) : Option (R Res) :=
   match k with
   | "c17.bisect" => some (bisect inp)
+  | "c17.bisectchild" => some (bisect inp)
   | _ => none
 
 end Hub.Drv.C17
